@@ -2586,6 +2586,8 @@ func (e *Engine) intrinsic(st *State, f *Frame, x *ssa.Call, fn *ssa.Function, n
 			return c64(0), true
 		}
 		return c64(reflectKind(iv.T)), true
+	case "(reflect.Value).IsValid":
+		return BoolC(args[0].(StructV).Fields[0].(IfaceV).T != nil), true
 	case "(reflect.Value).IsNil":
 		iv := args[0].(StructV).Fields[0].(IfaceV)
 		if iv.T == nil {
